@@ -600,10 +600,7 @@ fn pr_expr(e: &E, f: &Frame, prog: &Program, top: bool) -> String {
         E::Win(w, arg) => {
             let s = match arg {
                 Some(i) => format!("{} {}", w.name(), f.refname(*i).unwrap_or_else(|| format!("<unref {i}>"))),
-                None => match w {
-                    WinFn::Count => "count this".to_string(),
-                    _ => w.name().to_string(),
-                },
+                None => format!("{} this", w.name()),
             };
             if top {
                 s
@@ -1057,12 +1054,14 @@ impl<'a> Interp<'a> {
                 let (inner_frame, map) = group_inner_frame(&rel.frame, keys);
                 let mut rows = vec![];
                 for (k, prow) in parts {
-                    // inside a group the order in effect outside still orders each partition
+                    // whether a sort *before* `group` orders the partitions is not documented (the
+                    // compiler does not carry it in): inside the group no order is in effect until
+                    // the inner pipeline sorts, so order-dependent results there are undecided
                     let prow: Vec<Row> = prow
                         .into_iter()
-                        .map(|r| Row { vals: map.iter().map(|&i| r.vals[i].clone()).collect(), keys: r.keys })
+                        .map(|r| Row { vals: map.iter().map(|&i| r.vals[i].clone()).collect(), keys: vec![] })
                         .collect();
-                    let mut part = Rel { frame: inner_frame.clone(), rows: prow, order: rel.order.clone() };
+                    let mut part = Rel { frame: inner_frame.clone(), rows: prow, order: None };
                     for st in inner {
                         part = self.step_in_segment(st, part, &rel)?;
                     }
